@@ -6,6 +6,7 @@ M2: the name-class x value-class sequences of the model and seeded random sequen
     class are executed through set_preference / get_preference, interleaved with set_mathml and getters.
 M3: Trace_Prefs.tla judges every call from the complete read-back before and after it."""
 import json
+import os
 import random
 import re
 import time
@@ -28,6 +29,18 @@ VALID = {
 }
 GENERIC = ["true", "false", "TRUE", "False", "12.50", "100", "-3", "0", "abc", "", " ", "Auto", "Émile", "a'b", "0x10", "1e2"]
 UNKNOWN_NAMES = ["NoSuchPref", "language", "Speech_Style", "", "Braille Code", "pitch", "ClearSpeak", "UEB"]
+
+
+PERIOD_LANGS = None
+
+
+def _period_langs():
+    """USE_DECIMAL_SEPARATOR of prefs.rs::set_separators (the languages / language-countries that write a decimal point)."""
+    src = open(os.path.join(C.REPO, "src", "prefs.rs"), encoding="utf-8").read()
+    m = re.search(r"USE_DECIMAL_SEPARATOR: phf::Set<&str> = phf_set! \{(.*?)\};", src, re.S)
+    if not m:
+        raise C.ToolError("prefs.rs: USE_DECIMAL_SEPARATOR not found")
+    return set(re.findall(r'"([^"]+)"', m.group(1)))
 
 
 def rust_f64(s):
@@ -96,6 +109,12 @@ def make_session(rng, names, n_calls, model_seq=None):
             pool = VALID.get(name, []) * 3 + GENERIC
             value = rng.choice(pool)
         calls.append(("set", name, value))
+    if model_seq is None:
+        # preferences whose accepted value recomputes other preferences: the same name set several times in a row, in both orders
+        for _ in range(6):
+            calls.insert(rng.randrange(len(calls) + 1), ("set", "DecimalSeparator", rng.choice(["Auto", ".", ",", "Custom", ",", "."])))
+        for _ in range(3):
+            calls.insert(rng.randrange(len(calls) + 1), ("set", "Language", rng.choice(["en", "sv", "de-ch", "es-mx", "Auto", "fi"])))
     for k, name, value in calls:
         if k == "setmathml":
             ops.append({"op": "set_mathml", "mathml": rng.choice([EXPR, EXPR2, EXPR])})
@@ -116,6 +135,9 @@ def kind_of(dump, name):
 
 
 def project(script, res):
+    global PERIOD_LANGS
+    if PERIOD_LANGS is None:
+        PERIOD_LANGS = _period_langs()
     names = script["ops"][1]["names"]
     ops, rs = script["ops"], res["results"]
     events, info = [{"k": "session"}], [0]
@@ -140,6 +162,10 @@ def project(script, res):
                     e = {"k": "set", "name": op["name"], "value": op["value"], "res": r["r"], "kind": kind, "vclass": vclass(op["value"]),
                          "langOk": lang_ok(op["value"]), "expect": expect(op["name"], op["value"], kind),
                          "before": prev["prefs"], "after": after, "spB": prev["sp"], "spA": snap["sp"], "brB": prev["br"], "brA": snap["br"]}
+                    lg = str(after.get("Language", "")).lower()
+                    e["period"] = 1 if (lg in PERIOD_LANGS or lg.split("-")[0] in PERIOD_LANGS) else 0
+                    e["swiss"] = 1 if (lg.split("-") + [""])[1] in ("ch", "li") else 0
+                    e["blockPeriod"], e["blockComma"] = ", \u00a0\u202f", ". \u00a0\u202f"
                 else:
                     e = {"k": "setmathml", "name": "", "value": "", "res": r["r"], "kind": "none", "vclass": "other", "langOk": 1, "expect": "",
                          "before": prev["prefs"], "after": after, "spB": "", "spA": "", "brB": "", "brA": ""}
@@ -233,7 +259,7 @@ def selftest(tier):
     wd = C.workdir("c12_self")
     b = {"A": "1", "B": "x"}
     base = {"k": "set", "name": "A", "value": "2", "res": "ok", "kind": "string", "vclass": "num", "langOk": 1, "expect": "2",
-            "before": b, "after": {"A": "2", "B": "x"}, "spB": "s", "spA": "s", "brB": "b", "brA": "b"}
+            "before": b, "after": {"A": "2", "B": "x"}, "spB": "s", "spA": "s", "brB": "b", "brA": "b", "period": 1, "swiss": 0, "blockPeriod": ", ", "blockComma": ". "}
     bad = dict(base, after={"A": "1", "B": "x"})
     bad2 = dict(base, res="err", after={"A": "2", "B": "x"})
     rej, _, _ = C.validate_trace("Trace_Prefs", "Trace_Prefs.cfg", [base, bad, bad2], wd)
